@@ -93,6 +93,23 @@ TSendWrite ==
 TSendComplete ==
   /\ Is("SendComplete") /\ toCtrl[Ev.g] # <<>> /\ Head(toCtrl[Ev.g]).src = Ev.dst /\ SendComplete(Ev.g)
 
+\* the host (application) fills a page of GPU g directly in the storage (system-level runs)
+THostWrite ==
+  /\ Is("HostWrite") /\ InMem(Ev.g, Ev.base, Len(Ev.bytes))
+  /\ LET new == [a \in Ev.base..(Ev.base + Len(Ev.bytes) - 1) |-> Ev.bytes[a - Ev.base + 1]] IN
+     /\ mem' = [mem EXCEPT ![Ev.g] = new @@ @]
+     /\ mem0' = [mem0 EXCEPT ![Ev.g] = new @@ @]
+  \* a page that arrived by a completed migration and is overwritten by its owner: the migration's claim on
+  \* the contents ends here (the ghost snapshot of that request follows the write)
+  /\ LET doneIds == {done[Ev.g][i].id : i \in 1..Len(done[Ev.g])}
+         Patch(q) == [i \in 1..Len(q) |->
+                        IF q[i].id \in doneIds /\ q[i].to = Ev.base /\ q[i].n * Unit <= Len(Ev.bytes)
+                        THEN [q[i] EXCEPT !.snap = SubSeq(Ev.bytes, 1, q[i].n * Unit)] ELSE q[i]]
+     IN /\ done' = [done EXCEPT ![Ev.g] = Patch(@)]
+        /\ accepted' = [accepted EXCEPT ![Ev.g] = Patch(@)]
+        /\ issued' = [issued EXCEPT ![Ev.g] = Patch(@)]
+  /\ UNCHANGED <<reqv, ownv, portv, net, memPend, usedIds, pullSrc>>
+
 \* ------------------------------------------------------------ observations
 \* dump of the real storage behind memory controller g: must be the specification's memory
 TStorage ==
@@ -132,7 +149,7 @@ TReset ==
 TNext == \/ TNetTake \/ TNetDeliver
          \/ /\ \/ TEnvMig \/ TTakeComplete \/ TMemTake \/ TMemRsp
                \/ TAccept \/ TSendPull \/ TRecvPull \/ TSendRead \/ TRecvMem \/ TSendPullRsp
-               \/ TRecvPullRsp \/ TSendWrite \/ TSendComplete \/ TStorage
+               \/ TRecvPullRsp \/ TSendWrite \/ TSendComplete \/ TStorage \/ THostWrite
             /\ Same
          \/ (half = {} /\ (TQuiesce \/ TReset) /\ Same)
 
@@ -143,7 +160,7 @@ TSpec == TInit /\ [][TNext]_tvars
 \* so on a trace they are evaluated in exactly the states reached by those lines (4 KiB pages otherwise
 \* cost minutes per migration).
 Prev == IF l > 1 /\ l <= N + 1 THEN TraceLog[l - 1] ELSE [e |-> "none", k |-> ""]
-WroteJustNow == Prev.e = "MemRsp" /\ Prev.k = "wd"
+WroteJustNow == (Prev.e = "MemRsp" /\ Prev.k = "wd") \/ Prev.e = "HostWrite"
 TContentsCopied == (WroteJustNow \/ Prev.e = "SendComplete") => ContentsCopied
 TNothingElseChanged == (WroteJustNow \/ Prev.e = "Accept") => NothingElseChanged
 
